@@ -195,9 +195,11 @@ _POL = {'A': 'abcde', 'c': 'mnos', 'v': 'xyzv', 'p': 'FGHO'}
 def _sub(n):
     return str(n) if n else ''
 
-def std(s, *, top=True, infix_identity=False, ws=' '):
+def std(s, *, top=True, infix_identity=False, ws=' ', infix_preds=False):
     """Independent renderer for the documented standard ASCII alphabet
-    (doc: lang/_symdata parse table for Notation.standard)."""
+    (doc: lang/_symdata parse table for Notation.standard).  ``infix_preds``: user predicates of arity >= 2 are
+    written after their first parameter (``aFb``, ``aGbc``), which the standard parser documents as equivalent."""
+    kw = dict(infix_identity=infix_identity, ws=ws, infix_preds=infix_preds)
     t = s[0]
     if t == 'A':
         return _STD['A'][s[1]] + _sub(s[2])
@@ -212,14 +214,15 @@ def std(s, *, top=True, infix_identity=False, ws=' '):
             return '=' + ''.join(ps)
         if p == 'Existence':
             return '!' + ps[0]
+        if infix_preds and len(ps) >= 2:
+            return ps[0] + _STD['p'][p[0]] + _sub(p[1]) + ''.join(ps[1:])
         return _STD['p'][p[0]] + _sub(p[1]) + ''.join(ps)
     if t == 'Q':
-        return _STD_Q[s[1]] + std(s[2]) + std(s[3], top=False, infix_identity=infix_identity, ws=ws)
+        return _STD_Q[s[1]] + std(s[2]) + std(s[3], top=False, **kw)
     o = s[1]
     if OPS[o] == 1:
-        return _STD_OPS[o] + std(s[2][0], top=False, infix_identity=infix_identity, ws=ws)
-    body = (std(s[2][0], top=False, infix_identity=infix_identity, ws=ws) + ws + _STD_OPS[o] + ws +
-            std(s[2][1], top=False, infix_identity=infix_identity, ws=ws))
+        return _STD_OPS[o] + std(s[2][0], top=False, **kw)
+    body = (std(s[2][0], top=False, **kw) + ws + _STD_OPS[o] + ws + std(s[2][1], top=False, **kw))
     return body if top else '(' + body + ')'
 
 def pol(s):
